@@ -98,6 +98,8 @@ ACCEPT_DIAG_COND = {"I == J and I in D", "J == I and I in D", "I == J and J in D
 
 def check_function(ctx: core.Ctx, rel, qual, fn: ast.FunctionDef, dict_param: str, rule="LAY-KEYMAT"):
     """returns the canonical table (for sibling comparison) or None"""
+    from . import normast
+    fn = normast.Normaliser(None).function(fn)        # swapped arms / guard clauses / temporaries: compare the decision table, not its arrangement
     nest = find_nest(fn)
     where = f"{rel}:{qual}"
     if nest is None:
